@@ -1,6 +1,7 @@
 """C04 — Inbound encrypted transport delivers exactly the authentic byte stream."""
 from __future__ import annotations
 
+import bisect
 import importlib
 import sys
 from pathlib import Path
@@ -230,16 +231,25 @@ def judge(ctx: Ctx, cipher, case, obs, replay_kind, rep_override=None):
     frames, fail_end, consumed = ref.receive(cipher, stream)
     # only frames that are the sender's authentic ones may open; the reference receiver opens
     # exactly those that are authentic *in position*
+    ends = [e for e, _ in frames]
+    cum = [0]
+    for _, p in frames:
+        cum.append(cum[-1] + len(p))
+    authentic = b"".join(p for _, p in frames)
     n = 0
     delivered = b""
     failed = False
-    rep = {
-        "kind": replay_kind,
-        "payload_sizes": [len(p) for p in payloads],
-        "tamper": case["kind"],
-        "stream": hx(stream),
-        "reads": [len(r) for r in reads],
-    }
+    if case.get("replay") is not None:
+        # cases too long to be recorded byte by byte are regenerated from their plan
+        rep = dict(case["replay"])
+    else:
+        rep = {
+            "kind": replay_kind,
+            "payload_sizes": [len(p) for p in payloads],
+            "tamper": case["kind"],
+            "stream": hx(stream),
+            "reads": [len(r) for r in reads],
+        }
     if rep_override is not None:
         rep = dict(rep_override, connection_payload_sizes=rep["payload_sizes"], connection_tamper=case["kind"])
     if _DEBUG_LOGGING[0]:
@@ -250,7 +260,8 @@ def judge(ctx: Ctx, cipher, case, obs, replay_kind, rep_override=None):
             if "out" in o and o["out"]:
                 ctx.fail("C04:delivered-after-failure", "bytes handed over after a frame failed authentication", rep)
             continue
-        want = b"".join(p for end, p in frames if end <= n)
+        n_complete = bisect.bisect_right(ends, n)
+        want = authentic[: cum[n_complete]]
         must_fail = fail_end is not None and n >= max(fail_end, consumed + 19)
         may_fail = fail_end is not None and n >= fail_end
         if "err" in o:
@@ -272,8 +283,8 @@ def judge(ctx: Ctx, cipher, case, obs, replay_kind, rep_override=None):
             if want.startswith(delivered):
                 ctx.fail(
                     "C04:complete-frame-not-delivered",
-                    f"after {n} bytes {sum(1 for e, _ in frames if e <= n)} authentic frames are complete but only "
-                    f"{len(delivered)} of {len(want)} payload bytes were handed over (payload sizes {[len(p) for p in payloads]})",
+                    f"after {n} bytes {n_complete} authentic frames are complete but only "
+                    f"{len(delivered)} of {len(want)} payload bytes were handed over (payload sizes {_short([len(p) for p in payloads])})",
                     rep,
                 )
             else:
@@ -348,6 +359,292 @@ def run_real_stream(ctx: Ctx, hc):
         judge(ctx, cipher, case, obs, "real-rx")
         st.case(["real", [len(p) for p in ps], kind, [len(r) for r in reads], hx(s[:8])], True)
         st.hit("op", "real-crypto:" + kind)
+
+
+def _xrng(ctx: Ctx, tag: str):
+    """generator of a stream added later: independent of ctx.rng, so that the cases the older streams draw for a
+    given VERIF_SEED stay what they were"""
+    import random as _random
+
+    return _random.Random(f"C04:{tag}:{ctx.seed}")
+
+
+LONG_FRAMES = 65536  # the frame counter leaves its two low nonce bytes after this many frames
+
+
+def long_rx_case(plan):
+    """A LONG session of one connection, regenerated from its plan: more than 65536 inbound frames sealed by the
+    independent reference codec (nonce = 4 zero bytes || LE64 frame number, whatever the number), mostly 1-byte
+    payloads so that the whole session is ~1.3 MB of ciphertext.
+      authentic-then-stale  : 65536 + extra authentic frames, then a replay of an earlier frame of the session
+      replay-first-at-65536 : frames 0..65535, then frame 0 again in the place of frame 65536
+      wrong-counter-at-65536: frames 0..65535, then a fresh payload sealed under counter 0 instead of 65536"""
+    import random as _random
+
+    r = _random.Random(plan["seed"])
+    variant = plan["variant"]
+    n_auth = LONG_FRAMES + (plan["extra"] if variant == "authentic-then-stale" else 0)
+    key_in = ref.hkdf(SHARED, ref.SALT, ref.C2A)
+    cipher = ref.Real(key_in)
+    s0 = r.randrange(251)
+    ps = [bytes([1 + (s0 + i * 7) % 251]) for i in range(n_auth)]
+    for _ in range(60):  # a few larger frames anywhere, and right around the boundary
+        i = r.randrange(n_auth)
+        ps[i] = payload(r, r.choice([2, 19, 300, 1024]))
+    for i in (LONG_FRAMES - 2, LONG_FRAMES - 1, LONG_FRAMES, LONG_FRAMES + 1):
+        if i < n_auth and r.random() < 0.5:
+            ps[i] = payload(r, r.choice([1, 2, 40]))
+    fr = ref.seal_frames(cipher, ps)
+    if variant == "authentic-then-stale":
+        fr.append(fr[r.choice([0, 1, 255, 256, n_auth - LONG_FRAMES, r.randrange(n_auth)])])
+    elif variant == "replay-first-at-65536":
+        fr.append(fr[0])
+    else:
+        fr.append(ref.seal_frames(cipher, [payload(r, 5)], start=0)[0])
+    stream = b"".join(fr)
+    pos, boundary = 0, []
+    for i, f in enumerate(fr):
+        pos += len(f)
+        if i in (LONG_FRAMES - 1, LONG_FRAMES):
+            boundary.append(pos)
+    cuts = [r.randrange(1, len(stream)) for _ in range(r.choice([12, 25, 40]))]
+    # reads that end exactly on the last byte of frame 65535 / of frame 65536, or one byte off
+    cuts += [b + r.choice([0, 0, -1, 1]) for b in boundary]
+    return {"payloads": ps, "kind": variant, "stream": stream, "reads": cuts_to_reads(stream, cuts),
+            "replay": {"kind": "long-rx", "plan": plan}}, cipher
+
+
+def run_long_session(ctx: Ctx, hc, only=None):
+    """One connection that lives for more than 65536 inbound frames (real ChaCha20-Poly1305, reference sealer): every
+    authentic payload must still be handed over in order and a replayed / re-countered frame must still be rejected,
+    whichever byte of the nonce the frame number has reached."""
+    st = ctx.stats
+    if only is not None:
+        plans = [only]
+    else:
+        xr = _xrng(ctx, "long")
+        variants = ["authentic-then-stale", "replay-first-at-65536"] + ([] if ctx.quick else ["wrong-counter-at-65536"])
+        plans = [{"variant": v, "extra": xr.choice([40, 300, 700]), "seed": xr.randrange(1 << 30)} for v in variants]
+    for plan in plans:
+        case, cipher = long_rx_case(plan)
+        obs = impl_rx(hc, case["reads"])
+        judge(ctx, cipher, case, obs, "long-rx")
+        st.case(["long-rx", plan["variant"], plan["extra"], plan["seed"]], True)
+        st.hit("op", "long-session:" + plan["variant"])
+        st.hit("outcome", "long-session:" + ("rejected-at-end" if any("err" in o for o in obs[-1:]) else "no-rejection" if not any("err" in o for o in obs) else "rejected-early"))
+
+
+def run_pending_response(ctx: Ctx, hc, only=None):
+    """Frames that arrive WHILE A DELAYED RESPONSE IS PENDING (a camera snapshot: POST /resource on an accessory with
+    async_get_snapshot). The receive side of the property does not know about responses: a complete authentic frame
+    arriving in that window is handed to the HTTP parser by the read that carries its last byte, a non-authentic one
+    closes the connection at that read. What the HTTP layer then does with a pipelined request (pyhap closes the
+    connection) is not C04's business and is not judged. Real pair-verify by the reference controller; observed:
+    the bytes handed to the HTTP parser (`proto.conn.receive_data`) and `transport.close`, per read; which frames are
+    authentic is decided by the reference receiver, never by the name of the case. Mock-AEAD runs are also compared
+    with the model (`rxp`: reads interleaved with changes of the pending flag)."""
+    import json as _json
+    import random as _random
+
+    from cryptography.hazmat.primitives.asymmetric import ed25519
+
+    from props.c05 import IDENT, build_accessory
+    from ref import pv_client
+    from rig import Rig
+
+    st = ctx.stats
+    windows = ["auth-one-read", "auth-bytewise", "auth-split", "auth-two-frames", "auth-19-byte-frame", "auth-partial-only",
+               "flip", "replay", "wrongctr", "wrongkey", "lenprefix", "auth-then-dup", "flip-bytewise"]
+    if only is not None:
+        plans = [only]
+    else:
+        xr = _xrng(ctx, "pending" + ("-debug" if _DEBUG_LOGGING[0] else ""))
+        plans = [{"window": w, "mode": m, "before": 0, "seed": xr.randrange(1 << 30)} for w in windows for m in ("real", "mock")]
+        for _ in range(ctx.n(14, 400)):
+            plans.append({"window": xr.choice(windows), "mode": xr.choice(["real", "mock"]),
+                          "before": xr.choice([0, 1, 3]), "seed": xr.randrange(1 << 30)})
+        if ctx.budget_scale < 0.5:  # bounded repeats (debug logging, interpreter variant): a sample of the fixed plans
+            plans = plans[:: 3]
+    lines, impls = [], []
+    for plan in plans:
+        r = _random.Random(plan["seed"])
+        window, mode = plan["window"], plan["mode"]
+        cipher_cls = ref.Mock if mode == "mock" else ref.Real
+        rep = {"kind": "pending-response", "plan": plan}
+        if _DEBUG_LOGGING[0]:
+            rep["logging"] = "pyhap-debug"
+        size = plan["before"] * 20 + windows.index(window)
+        patches = []
+        if mode == "mock":
+            pm = mock.patch.object(hc, "ChaCha20Poly1305", PyMock)
+            pm.start()
+            patches.append(pm)
+        rig = Rig()
+        try:
+            driver = rig.driver
+            acc, chars = build_accessory(driver)
+            ltsk = ed25519.Ed25519PrivateKey.generate()
+            driver.state.add_paired_client(IDENT, pv_client.pub_bytes(ltsk), b"\x01")
+            proto, tr = rig.connect()
+            iid = driver.accessory.iid_manager.get_iid(chars[0])
+            v = pv_client.Verifier(IDENT, ltsk)
+            proto.data_received(pv_client.http_post("/pair-verify", v.m1()))
+            msgs, _ = ref.split_messages(tr.data())
+            proto.data_received(pv_client.http_post("/pair-verify", v.m3(msgs[-1][3])))
+            rig.loop.settle()
+            if tr.closed:
+                ctx.fail("C04:session-not-established", "an honest pair-verify did not secure the connection", rep)
+                continue
+            key = ref.hkdf(v.shared, ref.SALT, ref.C2A)
+            cipher = cipher_cls(key)
+            other = cipher_cls(bytes([key[0] ^ 0x55]) + key[1:])
+            handed = []
+            orig_r = proto.conn.receive_data
+            proto.conn.receive_data = lambda d, _o=orig_r, _h=handed: (_h.append(bytes(d)), _o(d))[1]
+            events, obs = [], []  # model input / per-read observation
+            sent_frames = []  # every authentic frame sent so far (material for replays)
+
+            def seal(parts):
+                fr = ref.seal_frames(cipher, parts, start=len(sent_frames))
+                sent_frames.extend(fr)
+                return fr
+
+            def feed(read):
+                """one read, then loop iterations only (virtual time does not move: a pending snapshot stays pending);
+                returns the bytes handed to the HTTP parser by it"""
+                before = sum(len(x) for x in handed)
+                proto.data_received(read)
+                rig.loop.settle()
+                events.append({"read": hx(read)})
+                return b"".join(handed)[before:]
+
+            # ---- ordinary authentic traffic, then the snapshot request: leaves a delayed response pending
+            sent_plain = b""
+            pre = [b"GET /characteristics?id=1.%d&n=%d HTTP/1.1\r\nHost: a\r\n\r\n" % (iid, i) for i in range(plan["before"])]
+            body = _json.dumps({"aid": 1, "size": r.choice([1, 900, 3000]), "delay": 1.0}).encode()
+            snap = b"POST /resource HTTP/1.1\r\nHost: a\r\nContent-Length: %d\r\n\r\n" % len(body) + body
+            if r.random() < 0.5:
+                pre.append(snap)
+            else:
+                h = r.randrange(1, len(snap))
+                pre += [snap[:h], snap[h:]]
+            ok = True
+            for part in pre:
+                got_now = feed(seal([part])[0])
+                obs.append({"out": hx(got_now)})
+                sent_plain += part
+                if tr.closed or b"".join(handed) != sent_plain:
+                    # nothing is pending yet: this is the ordinary protocol-level case (judged with the same words)
+                    total = b"".join(handed)
+                    sig = ("C04:authentic-stream-rejected" if tr.closed and total != sent_plain else
+                           "C04:complete-frame-not-delivered" if sent_plain.startswith(total) else "C04:delivered-bytes-differ")
+                    if total != sent_plain:
+                        ctx.fail(sig, f"before the snapshot request was complete: HTTP layer has {len(total)} of {len(sent_plain)} authentic bytes", rep, size=size)
+                    ok = False
+                    break
+            if not ok:
+                st.hit("outcome", "pending:setup-ended-early")
+                continue
+            events.append({"pending": True})
+            # ---- the window: further reads while the response is pending
+            ctr0 = len(sent_frames)
+            nxt = b"GET /characteristics?id=1.%d&w=1 HTTP/1.1\r\nHost: a\r\n\r\n" % iid
+            if window == "auth-one-read":
+                wreads = [seal([nxt])[0]]
+            elif window == "auth-bytewise":
+                w = seal([nxt])[0]
+                wreads = [w[k : k + 1] for k in range(len(w))]
+            elif window == "auth-split":
+                w = seal([nxt])[0]
+                c = r.choice([1, 2, 3, len(w) - 17, len(w) - 16, len(w) - 1, r.randrange(1, len(w))])
+                wreads = [w[:c], w[c:]]
+            elif window == "auth-two-frames":
+                h = r.randrange(1, len(nxt))
+                wreads = seal([nxt[:h], nxt[h:]])
+            elif window == "auth-19-byte-frame":
+                wreads = seal([nxt[:1]])
+            elif window == "auth-partial-only":
+                w = seal([nxt])[0]
+                wreads = [w[: r.randrange(1, len(w))]]
+            elif window == "auth-then-dup":
+                w = seal([nxt[:7]])[0]
+                wreads = [w, w] if r.random() < 0.5 else [w + w]
+            elif window in ("flip", "flip-bytewise"):
+                w = bytearray(seal([nxt])[0])
+                w[r.randrange(len(w))] ^= 1 << r.randrange(8)
+                ln = int.from_bytes(w[:2], "little")
+                w += bytes(max(0, 2 + ln + 16 - len(w)))  # a forged longer length: complete the forged frame
+                w = bytes(w)
+                if window == "flip":
+                    wreads = [w]
+                else:  # byte-wise (a forged length can make the forged frame tens of KB long: then only its last bytes singly)
+                    head = max(0, len(w) - 400)
+                    wreads = ([w[:head]] if head else []) + [w[k : k + 1] for k in range(head, len(w))]
+            elif window == "replay":
+                wreads = [r.choice(sent_frames)]
+            elif window == "wrongctr":
+                wreads = [ref.seal_frames(cipher, [nxt], start=ctr0 + r.choice([1, 2, 255, 256]))[0]]
+            elif window == "wrongkey":
+                wreads = [ref.seal_frames(other, [nxt], start=ctr0)[0]]
+            else:  # lenprefix
+                w = seal([nxt])[0]
+                wreads = [(len(nxt) - 1).to_bytes(2, "little") + w[2:]]
+            frames, fail_end, consumed = ref.receive(cipher, b"".join(wreads), start=ctr0)
+            base = len(sent_plain)
+            n = 0
+            for rd in wreads:
+                if tr.closed:
+                    break
+                got_now = feed(rd)
+                n += len(rd)
+                want = b"".join(p for e, p in frames if e <= n)
+                got = b"".join(handed)[base:]
+                if fail_end is not None and n >= max(fail_end, consumed + 19):
+                    obs.append({"err": "InvalidTag"} if tr.closed and not got_now else {"out": hx(got_now)})
+                    if not want.startswith(got):
+                        ctx.fail("C04:non-authentic-frame-delivered", f"a delayed response (snapshot) is pending: bytes of a frame that is not "
+                                 f"authentic ('{window}') reached the HTTP layer", rep, size=size)
+                    elif not tr.closed:
+                        ctx.fail("C04:not-closed-after-failure", f"a complete non-authentic frame ('{window}') arrived while a delayed response "
+                                 "(snapshot) was pending and the connection was not closed", rep, size=size)
+                    break
+                obs.append({"out": hx(got_now)})
+                if got != want:
+                    if tr.closed and not got_now:
+                        ctx.fail("C04:authentic-stream-rejected", f"an authentic frame arriving while a delayed response (snapshot) was pending "
+                                 f"('{window}') closed the connection without being handed over", rep, size=size)
+                    else:
+                        sig = "C04:complete-frame-not-delivered" if want.startswith(got) else "C04:delivered-bytes-differ"
+                        ctx.fail(sig, f"a delayed response (snapshot) is pending: after the read that carries the last byte of an authentic "
+                                 f"frame ('{window}') the HTTP layer has {len(got)} of {len(want)} bytes of the authentic frames that are "
+                                 f"complete", rep, size=size)
+                    break
+            in_window = sum(len(x) for x in handed)
+            # let the snapshot complete: nothing that was withheld in the window may show up only now
+            rig.loop.advance(1.5)
+            late = b"".join(handed)[in_window:]
+            if late:
+                ctx.fail("C04:complete-frame-not-delivered", f"{len(late)} bytes were handed to the HTTP layer only when the delayed response "
+                         f"completed, not when their frame arrived ('{window}')", rep, size=size)
+            if mode == "mock":
+                lines.append({"layer": "frame", "op": "rxp", "key": key[0], "events": events})
+                impls.append({"obs": obs, "plan": plan})
+            st.case(["pending-response", window, mode, plan["before"], plan["seed"]], True)
+            st.hit("op", "pending-response:" + window)
+            st.hit("outcome", "pending:closed" if tr.closed else "pending:open")
+        except (AssertionError, KeyError, IndexError, ValueError, TypeError) as ex:
+            # the reference controller could not establish the session: not this scenario's business
+            st.hit("outcome", "pending-aborted:" + type(ex).__name__)
+        finally:
+            for pm in patches:
+                pm.stop()
+            rig.close()
+    if only is None and lines:
+        model = run_model_parallel("C04", lines)
+        for m, i in zip(model, impls):
+            st.traces_validated += 1
+            if m.get("reads") != i["obs"]:
+                ctx.disagree("pending-response", i["plan"], _short(m.get("reads", m)), _short(i["obs"]))
 
 
 def run_interleaved(ctx: Ctx, hc, only=None):
@@ -840,6 +1137,23 @@ def run_packing(ctx: Ctx, hc):
             c2.decrypt()
             pos += k
         rx = [x for x in calls if x[0] == "dec"]
+        # long sessions: more than 65536 frames sent and received by ONE HAPCrypto (1-byte payloads; the recording
+        # cipher makes this cheap) -- the frame number leaves the two low bytes of the nonce
+        long_tx, long_rx = [], []
+        if ctx.budget_scale >= 0.5:
+            del calls[:]
+            n_long = LONG_FRAMES + _xrng(ctx, "pack").choice([3, 300, 1000])
+            c3 = hc.HAPCrypto(SHARED)
+            for i in range(n_long):
+                c3.encrypt(b"\x07")
+            long_tx = [x for x in calls if x[0] == "enc"]
+            del calls[:]
+            c4 = hc.HAPCrypto(SHARED)
+            stream = (b"\x01\x00" + bytes(17)) * n_long
+            for pos in range(0, len(stream), 19 * 2048 + 5):
+                c4.receive_data(stream[pos : pos + 19 * 2048 + 5])
+                c4.decrypt()
+            long_rx = [x for x in calls if x[0] == "dec"]
     direct_counters = [0, 1, 255, 256, 65535, 2**32 - 1, 2**32, 2**63, 2**64 - 1, 2**64, 2**64 + 5] + [
         rng.randrange(2**64) for _ in range(ctx.n(10, 100))
     ]
@@ -857,7 +1171,23 @@ def run_packing(ctx: Ctx, hc):
         {"layer": "frame", "op": "pack", "counters": list(range(len(rx))), "lengths": [x[3] for x in rx]},
         {"layer": "frame", "op": "pack", "counters": direct_counters, "lengths": direct_lengths},
     ]
+    if long_tx or long_rx:
+        lines.append({"layer": "frame", "op": "pack", "from": 0, "count": max(len(long_tx), len(long_rx)), "lengths": [1]})
     model = run_model_parallel("C04", lines)
+    for name, recs in (("tx", long_tx), ("rx", long_rx)):
+        if not recs:
+            continue
+        st.hit("op", f"pack:long-{name}-frames", len(recs))
+        st.traces_validated += 1
+        want = model[3].get("nonces", [])[: len(recs)]
+        got = [hx(x[1]) for x in recs]
+        aad_ok = all(hx(x[2]) == model[3].get("lengths", [None])[0] for x in recs)
+        if want != got or not aad_ok:
+            bad = next((i for i, (a, b) in enumerate(zip(want, got)) if a != b), None)
+            ctx.disagree("pack", {"direction": name, "long_session_frames": len(recs), "first_nonce_mismatch_at_frame": bad},
+                         _short({"nonce_at_mismatch": want[bad] if bad is not None else None, "aad": model[3].get("lengths")}),
+                         _short({"nonce_at_mismatch": got[bad] if bad is not None else None, "aad_all_equal_model": aad_ok}))
+        st.case(("pack", "long-" + name, len(recs)), True)
     for name, recs, m in (("tx", tx, model[0]), ("rx", rx, model[1])):
         st.hit("op", f"pack:{name}-frames", len(recs))
         st.traces_validated += 1
@@ -892,14 +1222,22 @@ def run(ctx: Ctx):
         "key with the old counter; mock runs compared with the model's `rekey`), single reads beyond 64 KiB, and several "
         "sessions alive at once with reads interleaved across connections (solo-run oracle per connection; mock runs "
         "compared with the model's `Pool.run`), and the byte-level packing stream (nonce and length prefix handed to the cipher "
-        "for every frame of a sent and a received stream, module-level packers at and beyond 2^64 / 2^16, vs the model). "
+        "for every frame of a sent and a received stream incl. one session of more than 65536 frames in each direction, "
+        "module-level packers at and beyond 2^64 / 2^16, vs the model), LONG sessions (more than 65536 inbound frames of the "
+        "reference sealer with real ChaCha: all authentic then a stale frame; a replay of frame 0 in the place of frame 65536), "
+        "and reads that arrive while a delayed (snapshot) response is pending (authentic whole / byte-wise / split / 19-byte, "
+        "flipped, replayed, re-countered, re-keyed, forged length; per read: bytes handed to the HTTP parser and close; mock "
+        "runs compared with the model's `rxp`). "
         "Non-trivial = more than one frame or more than one read or a tamper op; distinct by sizes, tamper, chunking."
     )
     ctx.assumptions.append("host is little-endian (Struct('H') is native order): " + sys.byteorder)
     run_mock_stream(ctx, hc)
     run_packing(ctx, hc)
     run_real_stream(ctx, hc)
+    if ctx.budget_scale >= 0.5:  # not in the bounded interpreter-variant repeat
+        run_long_session(ctx, hc)
     run_protocol_level(ctx, hc)
+    run_pending_response(ctx, hc)
     run_upgrade_boundary(ctx, hc)
     run_rekey(ctx, hc)
     run_interleaved(ctx, hc)
@@ -913,6 +1251,7 @@ def run(ctx: Ctx):
             _DEBUG_LOGGING[0] = True
             run_real_stream(ctx, hc)
             run_protocol_level(ctx, hc)
+            run_pending_response(ctx, hc)
             ctx.stats.hit("op", "repeat-under-debug-logging")
     finally:
         _DEBUG_LOGGING[0] = False
@@ -931,7 +1270,9 @@ def search(ctx: Ctx):
             for c in cases:
                 judge(ctx, cipher, c, impl_rx(hc, c["reads"]), "mock-rx")
         run_real_stream(ctx, hc)
+        run_long_session(ctx, hc)
         run_protocol_level(ctx, hc)
+        run_pending_response(ctx, hc)
         run_upgrade_boundary(ctx, hc)
         run_rekey(ctx, hc)
         run_interleaved(ctx, hc)
@@ -944,6 +1285,18 @@ def replay(ctx: Ctx, r):
     hc = _mods()
     if r["kind"] == "interleaved":
         run_interleaved(ctx, hc, only=r["plan"])
+        for f in ctx.failures:
+            print("FAILS:", f.signature, f.description)
+        print("verdict:", "property violated on this input" if ctx.failures else "holds on this input")
+        return 1 if ctx.failures else 0
+    if r["kind"] in ("long-rx", "pending-response"):
+        import contextlib
+
+        from common import pyhap_debug_logging
+
+        with pyhap_debug_logging() if r.get("logging") else contextlib.nullcontext():
+            (run_long_session if r["kind"] == "long-rx" else run_pending_response)(ctx, hc, only=r["plan"])
+        print("plan", r["plan"])
         for f in ctx.failures:
             print("FAILS:", f.signature, f.description)
         print("verdict:", "property violated on this input" if ctx.failures else "holds on this input")
